@@ -284,6 +284,7 @@ def run(repo='/repo', tier='quick'):
     c06i(db, res)
     c06j(db, res)
     c06k(db, res)
+    c06l(db, res)
     return res
 
 
@@ -426,6 +427,27 @@ def c06k(db, res):
             res.check(over_ctl, 'C06.k', 'data_probe_chunk_length:scan-continues-only-over-control-bytes', 'the scan steps over control characters only',
                       'a scan loop of data_probe_chunk_length goes on to the next byte without having seen a control character (guards: %s): bytes behind the first hex digit still decide, so the \';\' of a chunk extension makes a valid chunk-length line "not a chunk length"' % [a for a, e in atoms][-2:], f.blocks[h]['stmts'][-1]['loc'] if f.blocks[h]['stmts'] else f.loc)
     res.floor('C06.k', 'ways round the scan loops of the probe', m, 2)
+
+
+def c06l(db, res):
+    """Body callbacks can be registered on the configuration and on a single transaction (htp_tx_register_*_body_data). Whether
+    body bytes are dispatched must therefore not depend on what the configuration has registered: the hand-over functions do
+    not look at hook fields, the hook runners do."""
+    res.rule('C06.l', 'body bytes are dispatched whether or not the configuration has a body hook: no branch of htp_tx_req_process_body_data_ex / htp_tx_res_process_body_data_ex reads a hook field')
+    n = 0
+    for name in ('htp_tx_req_process_body_data_ex', 'htp_tx_res_process_body_data_ex'):
+        f = db.get(name)
+        bad = None
+        for b in sorted(f.blocks):
+            c = f.cond_of(b)
+            if not c:
+                continue
+            n += 1
+            if any((m.get('field') or '').startswith('hook_') for m in nodes(c[0], lambda y: y.get('k') == 'member')):
+                bad = c[0]
+        res.check(bad is None, 'C06.l', name + ':dispatch-independent-of-hooks', 'no branch on a hook field',
+                  '%s decides on a hook field of the configuration whether the body bytes are handed on: a callback registered on the transaction gets neither the data nor the end-of-body marker, while the entity length still counts the bytes' % name, (bad or {}).get('loc', f.loc))
+    res.floor('C06.l', 'branches in the body hand-over functions', n, 6)
 
 
 def central_accounting(db, proc, fld):
